@@ -39,6 +39,45 @@ def guard_signature(repo, c, m, f):
     return sig, ft, g
 
 
+def nan_discipline_inplace(f, g, fld):
+    """Every store of a formula depending on other.<fld> into self.<fld> is guarded by self.entries != 0 and other.entries != 0."""
+    sn, on = f.params
+    tcd = g.transitive_control_deps()
+
+    def guarded(node, who, edge):
+        for (tid, lab) in tcd[node.id]:
+            tn = g.nodes[tid]
+            if tn.kind == "test":
+                txt = ast.unparse(tn.ast).replace(" ", "")
+                if txt in (f"{who}.entries==0.0", f"{who}.entries==0", f"0.0=={who}.entries") and lab == edge:
+                    return True
+                if txt in (f"{who}.entries!=0.0", f"{who}.entries>0.0", f"{who}.entries>0") and lab == {"T": "F", "F": "T"}[edge]:
+                    return True
+        return False
+
+    stores = []
+    for n in g.nodes:
+        if n.kind == "stmt" and isinstance(n.ast, (ast.Assign, ast.AugAssign)):
+            for t in (n.ast.targets if isinstance(n.ast, ast.Assign) else [n.ast.target]):
+                if isinstance(t, ast.Attribute) and t.attr == fld and isinstance(t.value, ast.Name) and t.value.id == sn:
+                    stores.append(n)
+    if not stores:
+        return False, "never stores it"
+    problems = []
+    for n in stores:
+        v = n.ast.value
+        txt = ast.unparse(v)
+        reads_other = f"{on}.{fld}" in txt
+        reads_self = f"{sn}.{fld}" in txt or isinstance(n.ast, ast.AugAssign)
+        if txt == f"{on}.{fld}":
+            if not guarded(n, sn, "T"):
+                problems.append(f"takes `{on}.{fld}` without the guard `{sn}.entries == 0.0`")
+        elif reads_other and reads_self:
+            if not (guarded(n, sn, "F") and guarded(n, on, "F")):
+                problems.append(f"runs the general formula (line {n.lineno}) without excluding an empty `{'self' if not guarded(n, sn, 'F') else 'other'}` side")
+    return (not problems), ("; ".join(problems) if problems else "two-sided guard")
+
+
 def run(repo, rep, tier):
     rep.extra["explanation"] = (
         "Sibling agreement between __iadd__ and __add__ of each of the 19 primitives: either the delegation idiom "
@@ -114,6 +153,14 @@ def run(repo, rep, tier):
                         f" instead of being combined with `{on}.{fld}`: after `a += b`, a does not have the content of a + b",
                         stmt=f"{fld} not merged",
                     )
+            # NaN-initialised fields merged in place: same two-sided empty discipline as __add__ (R1.3): the general formula
+            # may only run when BOTH sides are non-empty (an empty side carries NaN, and 0 * NaN is NaN)
+            for fld in m.nan_fields:
+                okn, why = nan_discipline_inplace(f, g, fld)
+                r1.ob(okn, f"{c.name}.__iadd__: NaN field {fld}: {why}")
+                if not okn:
+                    rep.finding("R7.1", f, f.node, f"`{fld}` is NaN in an empty aggregator but the in-place merge {why}: `a += empty` (or "
+                                f"`empty += b`) poisons `{fld}` with NaN although `a + empty` keeps it", stmt=f"{fld}: NaN discipline in +=")
             for s in m.slots:
                 merged = False
                 for n in walk_local_stmt(f.node):
